@@ -418,6 +418,37 @@ class Check(Property):
             got, want = prefix_answers(asked), prefix_answers(first)
             if got != want:
                 v.append(f"C13 prefix myria- defined after its spellings had been asked for: {got}; a registry that got the prefix first: {want}")
+            # a refused context activation in between: definitions made afterwards take effect like in a registry that never saw it
+            def redef_answers(reg_):
+                out = []
+                for f in (lambda: str(reg_.Quantity(1.0, "inch").to("centimeter")), lambda: str(reg_.get_root_units("inch")),
+                          lambda: str(reg_.parse_units("smoot13s")), lambda: str(reg_.get_dimensionality("smoot13s")),
+                          lambda: str(reg_.Quantity(2.0, "smoot13s").to_base_units()), lambda: str(reg_.get_base_units("inch"))):
+                    try:
+                        out.append(f())
+                    except Exception as exc:  # noqa: BLE001
+                        out.append(type(exc).__name__)
+                return out
+            hist = pint.UnitRegistry(on_redefinition="ignore")
+            hist.define("smoot13 = 1.7 * meter")
+            redef_answers(hist)
+            bad = pint.Context("c13refused")
+            bad.redefine("inch = 3 * second")
+            hist.add_context(bad)
+            try:
+                with hist.context("c13refused"):
+                    pass
+            except Exception:  # noqa: BLE001
+                pass
+            plain = pint.UnitRegistry(on_redefinition="ignore")
+            plain.define("smoot13 = 1.7 * meter")
+            for r_ in (hist, plain):
+                r_.define("inch = 3 * centimeter")
+                r_.define("smoot13s = 5 * second")
+            got, want = redef_answers(hist), redef_answers(plain)
+            if got != want:
+                v.append(f"C13 after a refused context activation, define('inch = 3 cm') and define('smoot13s = 5 s'): {got}; a registry that "
+                         f"never saw the context: {want}")
             u = self.mkreg()
             with u.context("c13ctx"):
                 u.define("zork = 2 * meter")
